@@ -44,6 +44,7 @@ type fnCtx struct {
 	allowed  map[string][]string
 	keyed    map[loopKeyRes][]Clause
 	callOcc  map[*ssa.Call]int
+	retOcc   map[*ssa.Return]int
 	env      *SpecEnv // for invariants (top-level function only)
 }
 
@@ -314,7 +315,13 @@ func (e *Engine) load(st *State, a *Addr) Val {
 		}
 	}
 	cur, _ := e.applyPath(base, bt, a.Path)
-	return Val{T: cur, S: s, GoT: t}
+	out := Val{T: cur, S: s, GoT: t}
+	if a.Kind == aPtr && len(a.Path) == 0 {
+		if c, ok := st.Clos[a.Ref]; ok {
+			out.Clo = c
+		}
+	}
+	return out
 }
 
 func (e *Engine) loadStruct(st *State, ref string, t types.Type, u *types.Struct) string {
@@ -347,6 +354,20 @@ func (e *Engine) logStore(heap, ref string) {
 
 func (e *Engine) storeTo(st *State, a *Addr, v Val) {
 	bt := a.baseType()
+	if a.Kind == aPtr && len(a.Path) == 0 {
+		if _, isFn := bt.Underlying().(*types.Signature); isFn {
+			nc := map[string]*Closure{}
+			for k, c := range st.Clos {
+				nc[k] = c
+			}
+			if v.Clo != nil {
+				nc[a.Ref] = v.Clo
+			} else {
+				delete(nc, a.Ref)
+			}
+			st.Clos = nc
+		}
+	}
 	switch a.Kind {
 	case aCell:
 		key := a.Cell.(ssa.Value)
@@ -946,6 +967,9 @@ func (e *Engine) execBlock(fc *fnCtx, b *ssa.BasicBlock, st *State, deliver func
 			for _, r := range x.Results {
 				rs = append(rs, e.val(fc, r))
 			}
+			if fc.contract != nil && len(fc.contract.Asserts) > 0 && len(e.inlineStack) == 0 {
+				e.checkReturnAsserts(fc, st, x)
+			}
 			fc.returns = append(fc.returns, retState{st, rs})
 			return
 		case *ssa.Panic:
@@ -1121,7 +1145,11 @@ func (e *Engine) execInstr(fc *fnCtx, b *ssa.BasicBlock, st *State, ins ssa.Inst
 		for _, bv := range x.Bindings {
 			bs = append(bs, e.val(fc, bv))
 		}
-		fc.regs[x] = Val{T: "1", S: "Int", Clo: &Closure{Fn: x.Fn.(*ssa.Function), Bindings: bs}, GoT: x.Type()}
+		clo := &Closure{Fn: x.Fn.(*ssa.Function), Bindings: bs}
+		fc.regs[x] = Val{T: "1", S: "Int", Clo: clo, GoT: x.Type()}
+		if fc.contract != nil && len(fc.contract.Closures) > 0 && len(e.inlineStack) == 0 {
+			e.checkClosureSpec(fc, st, clo, x)
+		}
 	case *ssa.MakeMap:
 		ref := e.newRef(st, "map")
 		m := x.Type().Underlying().(*types.Map)
@@ -1267,4 +1295,97 @@ func invLabel(li *loopInfo, i int, inv Clause) string {
 		return fmt.Sprintf("[%s] %s", inv.Key, inv.Text)
 	}
 	return fmt.Sprintf("[%d.%d] %s", li.ordinal, i, inv.Text)
+}
+
+// closureOrdinal: k for the function literal fn$k+1 of its parent.
+func closureOrdinal(fn *ssa.Function) int {
+	name := fn.Name()
+	i := strings.LastIndex(name, "$")
+	if i < 0 {
+		return -1
+	}
+	n, err := strconv.Atoi(name[i+1:])
+	if err != nil {
+		return -1
+	}
+	return n - 1
+}
+
+// checkClosureSpec: `closure[k] e` - the k-th function literal returns e($0, $1, ...) for all arguments
+// (checked by executing its body on fresh symbolic arguments); HOF contracts then use e instead of the body.
+func (e *Engine) checkClosureSpec(fc *fnCtx, st *State, clo *Closure, mk *ssa.MakeClosure) {
+	cfn := clo.Fn.(*ssa.Function)
+	cl, ok := fc.contract.Closures[closureOrdinal(cfn)]
+	if !ok {
+		return
+	}
+	env := fc.env.with(st)
+	env.fc = fc
+	env.vars = map[string]Val{}
+	for k, v := range fc.env.vars {
+		if _, isParam := fc.env.entryVals[k]; isParam {
+			if _, ok := e.localByName(env, k); ok {
+				continue
+			}
+		}
+		env.vars[k] = v
+	}
+	clo.Spec, clo.SpecEnv = cl.E, env
+	if !e.canInline(fc, cfn) {
+		e.specFail(env, "closure["+fmt.Sprint(closureOrdinal(cfn))+"]: the function literal is not loop-free; its specification cannot be checked")
+	}
+	var args []Val
+	for i, p := range cfn.Params {
+		args = append(args, e.freshVal(fmt.Sprintf("cloarg%d", i), p.Type()))
+	}
+	tmp := st.clone()
+	res := e.inlineCall(fc, tmp, cfn, args, clo.Bindings, cfn.Signature.Results())
+	spec := e.applyClosureSpec(clo, args)
+	e.addObl(fc.fn, "closure", fmt.Sprintf("[%d] %s", closureOrdinal(cfn), cl.Text), mk.Pos(), tmp.Reach, eq(res.T, spec.T))
+}
+
+func (e *Engine) applyClosureSpec(clo *Closure, args []Val) Val {
+	env := clo.SpecEnv
+	for i, a := range args {
+		cfn := clo.Fn.(*ssa.Function)
+		if i < len(cfn.Params) {
+			a.GoT = cfn.Params[i].Type()
+		}
+		env = env.bind(fmt.Sprintf("$%d", i), a)
+	}
+	return e.trSpec(env, clo.Spec)
+}
+
+// checkReturnAsserts: `assert[return#k] e` is an obligation at the k-th return statement (source order).
+func (e *Engine) checkReturnAsserts(fc *fnCtx, st *State, ret *ssa.Return) {
+	if fc.retOcc == nil {
+		fc.retOcc = map[*ssa.Return]int{}
+		var rets []*ssa.Return
+		for _, b := range fc.fn.Blocks {
+			for _, ins := range b.Instrs {
+				if r, ok := ins.(*ssa.Return); ok {
+					rets = append(rets, r)
+				}
+			}
+		}
+		sort.SliceStable(rets, func(i, j int) bool { return rets[i].Pos() < rets[j].Pos() })
+		for i, r := range rets {
+			fc.retOcc[r] = i
+		}
+	}
+	key := fmt.Sprintf("return#%d", fc.retOcc[ret])
+	for _, cl := range fc.contract.Asserts[key] {
+		env := fc.env.with(st)
+		env.fc = fc
+		env.vars = map[string]Val{}
+		for k, v := range fc.env.vars {
+			if _, isParam := fc.env.entryVals[k]; isParam {
+				if _, ok := e.localByName(env, k); ok {
+					continue
+				}
+			}
+			env.vars[k] = v
+		}
+		e.addObl(fc.fn, "assert", "["+key+"] "+cl.Text, ret.Pos(), st.Reach, e.trSpec(env, cl.E).T)
+	}
 }
